@@ -179,16 +179,15 @@ def run(ctx):
     import gen_wyckoff_rule
     import crystals
     broken = []
-    try:
-        gen_tables.generate()
-        gen_wyckoff_rule.generate()
+    terr = common.regen(ctx, ("tables", "wyckoff_rule"))
+    if terr:
+        for t in THEOREMS:
+            ctx.obligations.append((t, False))
+        broken.append(("translator", terr))
+    else:
         ok, info = prove(ctx, "MatidProps.C08", THEOREMS)
         if not ok:
             broken.append(("proof", info))
-    except Exception as e:  # noqa
-        for t in THEOREMS:
-            ctx.obligations.append((t, False))
-        broken.append(("translator", {"error": repr(e)}))
     W = crystals.wyckoff_tables()
     rng = np.random.default_rng(ctx.seed)
     all_pairs = [(n, l) for n in range(1, 231) for l in W[n] if l != "translations"]
